@@ -441,6 +441,7 @@ func derefStruct(t types.Type) *types.Struct {
 
 func namedOf(t types.Type) *types.Named {
 	for i := 0; i < 4; i++ {
+		t = types.Unalias(t)
 		if n, ok := t.(*types.Named); ok {
 			return n
 		}
